@@ -44,4 +44,46 @@ PROPS = {
         "trusted_base": S_TRUSTED,
         "assumptions": S_ASSUME,
     },
+    "C14": {
+        "level": "other",
+        "level_text": "bounded symbolic execution of the real staking/distribution/bank code over every operation sequence inside the bound, with symbolic amounts, time spans and (thorough) slash fractions; each accounting clause and 'no panic / no failing block update' is decided by z3 for all values on every feasible path",
+        "level_note": "trusts the integer semantics given to Uint128/Decimal/Timestamp (validated against the real cosmwasm-std), the placeholder codec, z3; the reference ledger tracks each delegation as an interval [whole-token-floored, exact 18-decimal] because the property allows sub-token remainders to be dropped at slashes",
+        "technique": "symbolic execution + SMT (z3; linear abstraction first, exact nonlinear second) over the real code; counterexample replay on the unpatched build",
+        "explanation": S_EXPL,
+        "engines": [{"kind": "S"}],
+        "functions": [
+            "StakeKeeper::{execute,sudo,query,process_queue,update_rewards,update_stake,add_stake,remove_stake,slash,get_stake,get_rewards,calculate_rewards,validate_denom,validate_percentage} (src/staking.rs)",
+            "DistributionKeeper::{execute,remove_rewards,get_withdraw_address,set_withdraw_address} (src/staking.rs)",
+            "App::{execute,sudo,update_block} and Router (src/app.rs)",
+            "BankKeeper (src/bank.rs)",
+            "transactional/StorageTransaction, prefixed storage, cw-storage-plus Map/Item/Deque (registry source)",
+        ],
+        "bounds": {
+            "quick": "2 delegators x 2 validators (+ unknown validator, foreign denom); amounts symbolic in [0,2^40] tokens, time spans symbolic in [0,1e8] s, slash fraction from {0,1e-18,1/3,1/2,0.999998999999999999,1,1.5}; every single operation of an 18-operation alphabet, every sequence of length 2 over it, every sequence of length 3 over a 7-operation alphabet, and the 7-step history delegate,delegate,undelegate,slash,advance,advance,delegate",
+            "thorough": "as quick plus sequences of length 4 (small alphabet) and 3 (full alphabet) and the 7-step history with a symbolic slash fraction in [0,1.5]",
+        },
+        "outside": "more than 2 delegators/validators, sequences beyond the stated lengths, staking parameters other than unbonding 60 s / apr 10 % / commissions {10 %, 1/3}, amounts above 2^40 tokens",
+        "trusted_base": S_TRUSTED,
+        "assumptions": S_ASSUME,
+    },
+    "C16": {
+        "level": "other",
+        "level_text": "bounded symbolic execution of the real slashing code from a symbolic staking state (three delegations, two pending unbondings, accrued rewards): every C16 clause is decided by z3 for all delegation/unbonding amounts on every feasible path; later payouts are followed through update_block",
+        "level_note": "trusts the integer semantics given to Uint128/Decimal (validated against the real cosmwasm-std), the placeholder codec, z3; clauses are stated on observable whole-token values exactly as the property words them (scaled value rounded down; a sub-token remainder may be dropped)",
+        "technique": "symbolic execution + SMT (z3; linear abstraction first, exact nonlinear second) over the real code; counterexample replay on the unpatched build",
+        "explanation": S_EXPL,
+        "engines": [{"kind": "S"}],
+        "functions": [
+            "StakeKeeper::{sudo,validate_percentage,slash,update_rewards,process_queue,get_stake,get_rewards} (src/staking.rs)",
+            "App::{sudo,update_block,execute} (src/app.rs)",
+            "BankKeeper queries (src/bank.rs)",
+        ],
+        "bounds": {
+            "quick": "delegations A->V1, B->V1, A->V2 and unbondings from V1 and V2, all amounts symbolic in [0,2^40]; 30 s of accrued rewards; one slash of V1 or of an unknown validator with the fraction from {0,1e-18,1/3,1/2,0.999998999999999999,1,1.5}; two consecutive slashes of V1 (7x7 fractions); three consecutive slashes (tiny, tiny, large) of a delegation of at most 8 tokens; payouts 100 s later",
+            "thorough": "as quick plus a symbolic fraction in [0,1.5] and slashes of both validators",
+        },
+        "outside": "more than three consecutive slashes, more than 2 delegators/validators, amounts above 2^40 tokens",
+        "trusted_base": S_TRUSTED,
+        "assumptions": S_ASSUME,
+    },
 }
